@@ -162,9 +162,11 @@ def all_gate_names(idle=True):
     return names
 
 
-def build_gateset(idle=True):
+def build_gateset(idle=True, style="direct"):
     """Real jaqalpaq definitions over the synthetic matrices (import inside: the caller
-    decides which jaqalpaq source tree is on sys.path)."""
+    decides which jaqalpaq source tree is on sys.path).  style="copied" derives gates of
+    equal signature from one another through the public AbstractGate.copy(), the way
+    core/stretch.py builds variants."""
     from jaqalpaq.core import GateDefinition, Parameter, ParamType
     from jaqalpaq.core.gatedef import BusyGateDefinition, add_idle_gates
 
@@ -185,9 +187,15 @@ def build_gateset(idle=True):
         return unitary
 
     gates = {}
+    first_of_sig = {}
     for name, s in SIGS.items():
         params = [Parameter("p%d" % j, kinds[k]) for j, k in enumerate(s)]
-        gates[name] = GateDefinition(name, params, ideal_unitary=mk(name))
+        parent = first_of_sig.get(s)
+        if style == "copied" and parent is not None and mk(name) is not None and parent.ideal_unitary is not None:
+            gates[name] = parent.copy(name=name, ideal_unitary=mk(name))
+        else:
+            gates[name] = GateDefinition(name, params, ideal_unitary=mk(name))
+            first_of_sig.setdefault(s, gates[name])
     if idle:
         gates = add_idle_gates(gates)
     gates["prepare_all"] = BusyGateDefinition("prepare_all")
